@@ -96,6 +96,18 @@ func doReplay(b []byte) error {
 		fmt.Println("replay: no concrete input recorded (no-failing-input-found); see 'broken' in the replay file")
 		return nil
 	}
+	var kind struct {
+		Kind string `json:"kind"`
+	}
+	if json.Unmarshal(rep.Input, &kind) == nil && kind.Kind == "held-results" {
+		var hc heldCase
+		if err := json.Unmarshal(rep.Input, &hc); err != nil {
+			return err
+		}
+		n := heldResults(hc, func(key, what, got, want string) { fmt.Printf("%s: %s\n now  %q\n was  %q\n", key, what, got, want) })
+		fmt.Println("held results compared:", n)
+		return nil
+	}
 	if f, ok := replays[rep.Property]; ok {
 		return f(rep.Input)
 	}
